@@ -725,6 +725,12 @@ def run_C10(chk):
             l3 += ['bt N %d' % t, 'mt N %s' % C.fmt(C.civil_of_sec(t + off)), 'cv N %s' % C.fmt(C.civil_of_sec(t + off))]; m3 += [('bt', t), ('mt', t), ('cv', t)]
         for y, lim in ((-2147481749, I64MIN), (-2147483648 - 1900, I64MIN), (-2147483648 - 1899, I64MIN), (-2147481748 - 5, I64MIN), (-3000000000, I64MIN), (2147485548 + 5, I64MAX), (3000000000, I64MAX)):
             l3 += ['cv N %s' % C.fmt((y, 12, 31, 23, 59, 59)), 'cv N %s' % C.fmt((y, 1, 1, 0, 0, 0))]; m3 += [('sat', lim), ('sat', lim)]
+        # … and the outermost years that int tm_year (= year - 1900) still holds: exact, not saturated (seeded change C02O)
+        for y in (2147485547, 2147485546, 2147483648, 2147483647, 2147484000, -2147481748, -2147481747, -2147481000):
+            # (not within two days of the very ends: glibc's mktime() probes neighbouring instants whose local year no longer fits
+            # tm_year and fails there, and cctz documents that it saturates when mktime fails — the C library's behaviour, not cctz's)
+            for c in ((y, 12, 29, 23, 59, 59), (y, 1, 3, 0, 0, 0), (y, 6, 15, 12, 30, 0)):
+                l3 += ['cv N %s' % C.fmt(c)]; m3 += [('cv', C.sec_num(c) - off)]
         lo3 = run_lines(exe, l3, timeout=300, env={'TZ': tzs})
         if not lo3[0].startswith('ok'):
             chk.report('load_time_zone("libc:localtime") with TZ=%s gives `%s`' % (tzs, lo3[0]), {'op': l3[0], 'implementation': lo3[0]}, sig='libc load'); continue
